@@ -572,7 +572,7 @@ struct TemplateCore {
                         break;
                     }
 
-                    if (match != 0) {
+                    if (end_offset != 0) {
                         MathTag *tag   = (storage->Insert(TagBit{})).MakeMathTag();
                         tag->Offset    = (offset - TagPatterns::MathPrefixLength);
                         tag->EndOffset = end_offset;
@@ -690,11 +690,13 @@ struct TemplateCore {
                     finder.Next();
                     const SizeT end_offset = finder.GetOffset();
 
-                    while ((offset < end_offset) && (content[offset] != TagPatterns::MultiLineLastChar)) {
+                    // The head of the tag ends at the first '>', which has to come before the next tag starts.
+                    while ((offset < end_offset) && (content[offset] != TagPatterns::MultiLineLastChar) &&
+                           (content[offset] != TagPatterns::MultiLineFirstChar)) {
                         ++offset;
                     }
 
-                    if (offset < end_offset) {
+                    if ((offset < end_offset) && (content[offset] == TagPatterns::MultiLineLastChar)) {
                         LoopTag *tag = (storage->Insert(TagBit{})).MakeLoopTag();
                         tag->Offset  = loop_offset;
                         tag->Parent  = loop_tag;
@@ -715,12 +717,18 @@ struct TemplateCore {
 
                 case TagPatterns::LoopEndID: {
                     if ((loop_tag != nullptr) && parent_storage.IsNotEmpty()) {
-                        storage = *(parent_storage.Last());
-                        parent_storage.Drop(SizeT{1});
+                        Array<TagBit> *tmp     = *(parent_storage.Last());
+                        TagBit        *tag_bit = tmp->Last();
 
-                        LoopTag &tag  = storage->Last()->GetLoopTag();
-                        tag.EndOffset = (finder.GetOffset() - TagPatterns::LoopSuffixLength);
-                        loop_tag      = tag.Parent;
+                        // Only a loop that is the innermost open tag can be closed here.
+                        if (tag_bit->GetType() == TagType::Loop) {
+                            storage = tmp;
+                            parent_storage.Drop(SizeT{1});
+
+                            LoopTag &tag  = tag_bit->GetLoopTag();
+                            tag.EndOffset = (finder.GetOffset() - TagPatterns::LoopSuffixLength);
+                            loop_tag      = tag.Parent;
+                        }
                     }
 
                     finder.Next();
@@ -849,7 +857,8 @@ struct TemplateCore {
         const Char_T *var = (content + tag.Offset);
 
         while (loop_tag != nullptr) {
-            if (StringUtils::IsEqual(var, (content + (loop_tag->Offset + loop_tag->ValueOffset)),
+            if ((loop_tag->ValueLength <= tag.Length) &&
+                StringUtils::IsEqual(var, (content + (loop_tag->Offset + loop_tag->ValueOffset)),
                                      loop_tag->ValueLength)) {
                 tag.IDLength = loop_tag->ValueLength;
                 tag.Level    = loop_tag->Level;
@@ -1364,6 +1373,11 @@ struct TemplateCore {
                 ++offset;
             }
 
+            if (offset == length) {
+                // Ends with ']' but has no '[': a plain name.
+                return value_->GetValue(id, length);
+            }
+
             if (offset != 0) {
                 // {var:abc[...]}
                 // if offset == 0 then it's {var:[...]}
@@ -1391,7 +1405,7 @@ struct TemplateCore {
 
             ++offset2; // The char after ]
 
-            if (id[offset2] != TagPatterns::VariableIndexPrefix) {
+            if ((offset2 >= length) || (id[offset2] != TagPatterns::VariableIndexPrefix)) {
                 break;
             }
 
